@@ -279,7 +279,10 @@ def build_class(model, consts, cls):
 
     rm = c['methods']['read']
     wm = c['methods']['write']
-    r = [fixs(x) for x in proc_body(Ctx(model, cls, cls, '', stream_of(rm)), rm['body'].get('inner', []))]
+    if cls == 'ObjectHeaderBase':
+        r = [fixs(x) for x in ohb_read(Ctx(model, cls, cls, '', stream_of(rm)), rm)]
+    else:
+        r = [fixs(x) for x in proc_body(Ctx(model, cls, cls, '', stream_of(rm)), rm['body'].get('inner', []))]
     w = [fixs(x) for x in proc_body(Ctx(model, cls, cls, '', stream_of(wm)), wm['body'].get('inner', []))]
     sz = model.find_method(cls, 'calculateObjectSize')
     hs = model.find_method(cls, 'calculateHeaderSize')
@@ -527,6 +530,12 @@ def main():
             summary['untranslated'][cls] = str(e)
         except KeyError as e:
             summary['untranslated'][cls] = 'KeyError ' + str(e)
+    ohb_txt = None
+    try:
+        oci = build_class(m, consts, 'ObjectHeaderBase')
+        ohb_txt = lean_class(oci, None)
+    except (Unsupported, KeyError) as e:
+        summary['untranslated']['ObjectHeaderBase'] = str(e)
     os.makedirs(a.lean, exist_ok=True)
     os.makedirs(a.cpp, exist_ok=True)
     # --- Lean: chunks of classes
@@ -555,6 +564,8 @@ def main():
         ot = getattr(consts, 'objecttype', [])
         f.write('def objectTypeEnum : List (String × Nat) := [' + ', '.join('("%s", %d)' % (k, v) for k, v in ot) + ']\n\n')
         f.write('def ohbLoopHash : String := "%s"\n\n' % getattr(m, 'ohb_loop_hash', ''))
+        if ohb_txt:
+            f.write(ohb_txt + '\n')
         f.write('end Blf.Gen\n')
     # --- C++
     NR = 8
